@@ -24,7 +24,11 @@ func genFastaRecord(r *rand.Rand, seqLen int) *fasta.Fasta {
 	default:
 		nameLen = r.IntN(40)
 	}
-	return &fasta.Fasta{Name: randBytesExcl(r, nameLen, fastaNameExcl), Sequence: randBytesExcl(r, seqLen, fastaSeqExcl)}
+	rec := &fasta.Fasta{Name: randBytesExcl(r, nameLen, fastaNameExcl), Sequence: randBytesExcl(r, seqLen, fastaSeqExcl)}
+	if r.IntN(6) == 0 { // what sequences look like: letters, with runs and repeats (poly-A tails, N gaps, masked stretches)
+		rec.Sequence = runSeq(r, []byte(pick(r, []string{"ACGT", "ACGTN", "ACGTNacgtn-*", "AN", " A\t"})), seqLen)
+	}
+	return rec
 }
 
 func genFastaLen(r *rand.Rand) int {
